@@ -54,7 +54,15 @@ type Step struct {
 	Only     string   `json:"only,omitempty"`
 	Threads  [][]Step `json:"threads,omitempty"`
 	Model    *Model   `json:"model,omitempty"`
+	Want     []EvWant `json:"want,omitempty"`
 	PauseUs  int      `json:"pause_us,omitempty"`
+}
+
+// EvWant: one event the event model (spec/InotifyEvents via MC_EventsGen) says the user receives.
+type EvWant struct {
+	Name []string `json:"name"`
+	Op   int      `json:"op"`
+	From []string `json:"from"`
 }
 
 type Model struct {
